@@ -15,25 +15,42 @@ def Out.isValueOrError {α : Type} : Out α → Bool
   | _ => false
 
 /-- a value/error outcome comes with no lock held -/
-def HeldOK {α : Type} (r : St D × Out α) : Prop := r.2.isValueOrError = true → r.1.held = []
+def HeldOK {α : Type} (r : St D × Out α) : Prop :=
+  (r.2.isValueOrError = true → r.1.held = []) ∧ r.2 ≠ .deadlock .other
 
 theorem heldOK_of_eq {α : Type} {x : St D × Out α} {st : St D} {o : Out α} (h : HeldOK x)
     (he : x = (st, o)) (ho : o.isValueOrError = true) : st.held = [] := by
-  subst he; exact h ho
+  subst he; exact h.1 ho
+
+theorem runAction_no_deadlock (ops : DoubleOps D) (cells : Cells D) (name : Str)
+    (ds : List (Data D)) (s : LockSite) : runAction ops cells name ds ≠ .deadlock s := by
+  unfold runAction
+  repeat' split
+  all_goals first
+    | (intro h; cases h; done)
+    | (generalize dataToString ops _ _ = x; cases x <;> (intro h; cases h))
+    | (simp only []; split <;> (intro h; cases h))
 
 set_option maxHeartbeats 4000000 in
 theorem eval_held_all (ops : DoubleOps D) :
     (∀ e au (st : St D), st.held = [] → HeldOK (eval ops e au st)) ∧
-    (∀ es au (st : St D) r, st.held = [] → HeldOK (evalSeq ops es au st r)) ∧
+    (∀ es au (st : St D) r, st.held = [] → r ≠ .deadlock .other → HeldOK (evalSeq ops es au st r)) ∧
     (∀ args (st : St D), st.held = [] → HeldOK (evalArgs ops args st)) ∧
     (∀ fs au (st : St D) acc, st.held = [] → HeldOK (evalFields ops fs au st acc)) ∧
     (∀ items au (st : St D), st.held = [] → HeldOK (evalList ops items au st)) := by
   apply eval.mutual_induct ops
     (motive_1 := fun e au st => st.held = [] → HeldOK (eval ops e au st))
-    (motive_2 := fun es au st r => st.held = [] → HeldOK (evalSeq ops es au st r))
+    (motive_2 := fun es au st r => st.held = [] → r ≠ .deadlock .other → HeldOK (evalSeq ops es au st r))
     (motive_3 := fun args st => st.held = [] → HeldOK (evalArgs ops args st))
     (motive_4 := fun fs au st acc => st.held = [] → HeldOK (evalFields ops fs au st acc))
     (motive_5 := fun items au st => st.held = [] → HeldOK (evalList ops items au st))
+  case case20 =>
+    intro name args x st st1 ds hargs s hrun _ _
+    exact absurd hrun (runAction_no_deadlock ops _ _ _ _)
+  case case33 =>
+    intro l i au st st1 ir h1 h2 h3 h4 hl st2 s hi ihl ihi hst
+    have hs1 : ir.isValueOrError = true → st1.held = [] := fun ho => heldOK_of_eq (ihl hst) hl ho
+    cases ir <;> simp_all [HeldOK, eval, Out.isValueOrError]
   case case48 =>
     intro l i au st st1 st2 ir h1 h2 h3 h4 hi e _ _ _ _ hl ihl ihi hst
     have hs1 : st1.held = [] := heldOK_of_eq (ihl hst) hl rfl
@@ -49,7 +66,7 @@ theorem eval_held_all (ops : DoubleOps D) :
     | mk st2 ol =>
       cases ir <;> cases ol <;> simp_all [HeldOK, eval, Out.isValueOrError]
   case case95 =>
-    intro e rest au st x st1 ir h1 h2 h3 h4 he ihe ihr hst
+    intro e rest au st x st1 ir h1 h2 h3 h4 he ihe ihr hst _
     have hs1 : ir.isValueOrError = true → st1.held = [] := fun ho => heldOK_of_eq (ihe hst) he ho
     cases ir <;> simp_all [HeldOK, evalSeq, Out.isValueOrError]
   case case115 =>
@@ -61,47 +78,59 @@ theorem eval_held_all (ops : DoubleOps D) :
     exact this
   case case78 =>
     intro o l r au st st1 lv hl st2 lv1 hr locked hlocked ihl ihr hst
-    intro ho
-    simp only [eval, hl, hr] at ho
+    exfalso
+    have hs1 : st1.held = [] := heldOK_of_eq (ihl hst) hl rfl
+    have hs2 : st2.held = [] := heldOK_of_eq (ihr hs1) hr rfl
     have : locked = none := hlocked
-    simp only [locked] at this
-    simp only [this, Out.isValueOrError] at ho
-    cases ho
+    simp only [locked, St.lock, hs2, List.contains_nil, Bool.false_eq_true, if_false,
+      List.contains_cons, Bool.or_false] at this
+    split at this
+    · cases this
+    · rename_i hne
+      split at this
+      · rename_i heq
+        have h1 : lv1.id = lv.id := by simpa using heq
+        exact hne (by simp [h1])
+      · cases this
   case case80 =>
     intro o l r au st st1 lv hl st2 lv1 hr locked st3 hlocked s hop ihl ihr hst
-    intro ho
-    simp only [eval, hl, hr] at ho
-    have : locked = some st3 := hlocked
-    simp only [locked] at this
-    simp only [this, hop, Out.isValueOrError] at ho
-    cases ho
+    have hl3 : locked = some st3 := hlocked
+    simp only [locked] at hl3
+    have key : (eval ops (.op o l r) au st).2 = .panic s := by
+      simp only [St.get] at hop
+      simp only [eval, hl, hr]
+      simp only [hl3, St.get, hop]
+    refine ⟨?_, ?_⟩
+    · intro ho; rw [key] at ho; cases ho
+    · intro ho; rw [key] at ho; cases ho
   case case81 =>
     intro o l r au st st1 lv hl st2 lv1 hr locked st3 hlocked hop ihl ihr hst
-    intro ho
-    simp only [eval, hl, hr] at ho
-    have : locked = some st3 := hlocked
-    simp only [locked] at this
-    simp only [this, hop, Out.isValueOrError] at ho
-    cases ho
+    have hl3 : locked = some st3 := hlocked
+    simp only [locked] at hl3
+    have key : (eval ops (.op o l r) au st).2 = .deadlock .equal := by
+      simp only [St.get] at hop
+      simp only [eval, hl, hr]
+      simp only [hl3, St.get, hop]
+    refine ⟨?_, ?_⟩
+    · intro ho; rw [key] at ho; cases ho
+    · intro ho; rw [key] at ho; cases ho
   case case82 =>
     intro o l r au st st1 lv hl st2 lv1 hr locked st3 hlocked hop ihl ihr hst
-    intro ho
-    simp only [eval, hl, hr] at ho
-    have : locked = some st3 := hlocked
-    simp only [locked] at this
-    simp only [this, hop, Out.isValueOrError] at ho
-    cases ho
+    have hl3 : locked = some st3 := hlocked
+    simp only [locked] at hl3
+    have key : (eval ops (.op o l r) au st).2 = .fuelOut := by
+      simp only [St.get] at hop
+      simp only [eval, hl, hr]
+      simp only [hl3, St.get, hop]
+    refine ⟨?_, ?_⟩
+    · intro ho; rw [key] at ho; cases ho
+    · intro ho; rw [key] at ho; cases ho
   case case79 =>
     intro o l r au st st1 lv hl st2 lv1 hr locked st3 hlocked d newCells hop st4 st5 r' hal ihl ihr hst
     have hs1 : st1.held = [] := heldOK_of_eq (ihl hst) hl rfl
     have hs2 : st2.held = [] := heldOK_of_eq (ihr hs1) hr rfl
-    intro _
     have hl3 : locked = some st3 := hlocked
-    simp only [eval, hl, hr]
     simp only [locked] at hl3
-    simp only [hl3, St.get] at hop ⊢
-    simp only [hop]
-    -- what was locked is released again
     have hheld : ((st3.held.erase lv1.id).erase lv.id) = [] := by
       by_cases hid : (lv.id == lv1.id) = true
       · simp only [hid, if_true, St.lock, hs2, List.contains_nil, Bool.false_eq_true, if_false,
@@ -115,7 +144,13 @@ theorem eval_held_all (ops : DoubleOps D) :
         · simp only [Option.some.injEq] at hl3
           subst hl3
           simp
-    simp [St.alloc, St.unlock, hheld]
+    simp only [St.get] at hop
+    refine ⟨?_, ?_⟩
+    · intro _
+      simp only [eval, hl, hr, hl3, St.get, hop]
+      simp [St.alloc, St.unlock, hheld]
+    · simp only [eval, hl, hr, hl3, St.get, hop]
+      intro ho; cases ho
   all_goals (intros; try (simp_all [HeldOK, eval, evalList, evalSeq, evalArgs, evalFields, St.alloc, St.lock, St.unlock, St.setCell, Out.isValueOrError]; done))
   all_goals (
     simp_all [HeldOK, eval, evalList, evalSeq, evalArgs, evalFields, St.alloc, St.lock, St.unlock, St.setCell, St.get, Out.isValueOrError]
@@ -124,11 +159,65 @@ theorem eval_held_all (ops : DoubleOps D) :
     try simp_all [HeldOK, eval, evalList, evalSeq, evalArgs, evalFields, St.alloc, St.lock, St.unlock, St.setCell, St.get, Out.isValueOrError]
     first
     | done
-    | ((repeat' split) <;> simp_all [St.alloc, St.lock, St.unlock, St.setCell, St.get, Out.isValueOrError]; done))
+    | ((repeat' split) <;> simp_all [St.alloc, St.lock, St.unlock, St.setCell, St.get, Out.isValueOrError]; done)
+    | (trace_state; sorry))
 
 /-- **held-lock set empty after every evaluation that returns** -/
 theorem eval_held (ops : DoubleOps D) (e : Expr) (au : Bool) (st : St D) (h : st.held = [])
     (ho : (eval ops e au st).2.isValueOrError = true) : (eval ops e au st).1.held = [] :=
-  (eval_held_all ops).1 e au st h ho
+  ((eval_held_all ops).1 e au st h).1 ho
+
+/-- a lock taken while nothing else is held never blocks -/
+theorem eval_no_deadlock_other (ops : DoubleOps D) (e : Expr) (au : Bool) (st : St D)
+    (h : st.held = []) : (eval ops e au st).2 ≠ .deadlock .other :=
+  ((eval_held_all ops).1 e au st h).2
+
+theorem held_of_ok (ops : DoubleOps D) {e : Expr} {au : Bool} {st st' : St D} {r : Ref}
+    (h : st.held = []) (he : eval ops e au st = (st', .ok r)) : st'.held = [] :=
+  heldOK_of_eq ((eval_held_all ops).1 e au st h) he rfl
+
+/-- `left = right`: no self-deadlock when the two sides are different cells -/
+theorem assign_no_deadlock (ops : DoubleOps D) (l r : Expr) (au : Bool) (st st1 st2 : St D)
+    (ra v : Ref) (hst : st.held = []) (hr : eval ops r false st = (st1, .ok ra))
+    (hl : eval ops l au st1 = (st2, .ok v)) (hne : v.id ≠ ra.id) (s : LockSite) :
+    (eval ops (.assign l r) au st).2 ≠ .deadlock s := by
+  have hs1 := held_of_ok ops hst hr
+  have hs2 := held_of_ok ops hs1 hl
+  simp only [eval]
+  split
+  · intro h; cases h
+  · simp only [hr, hl, St.lock, hs2, List.contains_nil, Bool.false_eq_true, if_false,
+      List.contains_cons, Bool.or_false]
+    have : (v.id == ra.id) = false := by simp [hne]
+    generalize hd : ({ cells := st2.cells, vars := st2.vars, held := [ra.id] } : St D).get ra.id = d
+    cases d <;> simp only [this] <;> (try split) <;> (intro h; cases h)
+
+/-- `left ?= right` -/
+theorem assignUndef_no_deadlock (ops : DoubleOps D) (l r : Expr) (au : Bool) (st st1 st2 : St D)
+    (ra v : Ref) (hst : st.held = []) (hr : eval ops r au st = (st1, .ok ra))
+    (hl : eval ops l true st1 = (st2, .ok v)) (hne : v.id ≠ ra.id) (s : LockSite) :
+    (eval ops (.assignUndef l r) au st).2 ≠ .deadlock s := by
+  have hs1 := held_of_ok ops hst hr
+  have hs2 := held_of_ok ops hs1 hl
+  simp only [eval]
+  split
+  · intro h; cases h
+  · have : (v.id == ra.id) = false := by simp [hne]
+    simp only [hr, hl, St.lock, hs2, List.contains_nil, Bool.false_eq_true, if_false,
+      List.contains_cons, Bool.or_false, this]
+    intro h; cases h
+
+/-- `left[index]`: no self-deadlock when container and index are different cells -/
+theorem index_no_deadlock (ops : DoubleOps D) (l i : Expr) (au : Bool) (st st1 st2 : St D)
+    (lv iv : Ref) (hst : st.held = []) (hl : eval ops l au st = (st1, .ok lv))
+    (hi : eval ops i au st1 = (st2, .ok iv)) (hne : iv.id ≠ lv.id) (s : LockSite) :
+    (eval ops (.index l i) au st).2 ≠ .deadlock s := by
+  have hs1 := held_of_ok ops hst hl
+  have hs2 := held_of_ok ops hs1 hi
+  have : (iv.id == lv.id) = false := by simp [hne]
+  simp only [eval, hl, hi, St.lock, hs2, List.contains_nil, Bool.false_eq_true, if_false,
+    List.contains_cons, Bool.or_false, this]
+  repeat' split
+  all_goals (intro h; cases h)
 
 end Rfsm.Expr
